@@ -23,11 +23,11 @@ def AdvWire (k : Nat) (sent own w : List WireFrame) : Prop :=
                                 (∃ f ∈ own, ∃ ivo', f.body = .ct ivo' c))
 
 /-- a seal of the other direction is `Foreign` to this one: its nonce has another IV tail, and if
-    it is a first frame its digest pair is in the opposite order -/
+    it carries digests (a first frame) its nonce is that direction's own base IV -/
 theorem own_is_foreign {k : Nat} {ivS ivR : IV} {dgR : Digest × Digest} {cR : Nat} {itemsR : List Item}
-    (hsep : ivS.tail ≠ ivR.tail) (hasym : dgR.1 ≠ dgR.2)
+    (hsep : ivS.tail ≠ ivR.tail)
     {f : WireFrame} (hf : f ∈ framesFrom k ivR dgR cR itemsR) {ivo : Option IV} {c : Sealed}
-    (hb : f.body = .ct ivo c) : Foreign ivS (dgR.2, dgR.1) c := by
+    (hb : f.body = .ct ivo c) : Foreign ivS ivR c := by
   obtain ⟨j, it, _, hfe⟩ := mem_framesFrom itemsR cR f hf
   rw [hfe] at hb
   simp only [frameAt, Body.ct.injEq] at hb
@@ -37,20 +37,14 @@ theorem own_is_foreign {k : Nat} {ivS ivR : IV} {dgR : Digest × Digest} {cR : N
     exact hsep h.2.symm
   · simp only [sealedAt]
     by_cases hz : cR + j = 0
-    · rw [if_pos hz]
-      intro h
-      have h' : dgR = (dgR.2, dgR.1) := Option.some.inj h
-      have h1 := congrArg Prod.fst h'
-      exact hasym h1
-    · rw [if_neg hz]
-      intro h
-      cases h
+    · intro _; rw [hz]
+    · rw [if_neg hz]; intro h; exact absurd rfl h
 
 theorem advWire_advFrame {k iv ivR dg dgR c0 cR items itemsR sent own w}
-    (hsep : iv.tail ≠ ivR.tail) (hasym : dgR.1 ≠ dgR.2)
+    (hsep : iv.tail ≠ ivR.tail)
     (hsent : sent = framesFrom k iv dg c0 items) (hown : own = framesFrom k ivR dgR cR itemsR)
     (h : AdvWire k sent own w) :
-    ∀ g ∈ w, AdvFrame k iv dg (dgR.2, dgR.1) c0 items g := by
+    ∀ g ∈ w, AdvFrame k iv dg ivR c0 items g := by
   intro g hg
   have := h g hg
   unfold AdvFrame
@@ -69,7 +63,7 @@ theorem advWire_advFrame {k iv ivR dg dgR c0 cR items itemsR sent own w}
       exact hfb.2.symm
     · right
       rw [hown] at hf
-      exact own_is_foreign hsep hasym hf hfb
+      exact own_is_foreign hsep hf hfb
 
 /-- **recv_prefix** (fresh session). Two endpoints install the same key with their own fresh IVs;
     the sender's application performs any sequence of frame sends `ops` that the sender accepts,
@@ -77,13 +71,12 @@ theorem advWire_advFrame {k iv ivR dg dgR c0 cR items itemsR sent own w}
     the wire arbitrarily within `AdvWire` (its own bytes, the sender's seals, the receiver's own
     seals reflected). Whatever `ReceiveCompleteMessage` hands the receiving application before its
     first error is a prefix of the messages sent, boundaries intact.
-    Hypotheses about the session: the two fresh IVs differ in their last 12 bytes (`hsep`, two
-    independent `crypto/rand` draws) and the receiver's two transcript digests differ (`hasym`:
-    something was exchanged in clear before the key was installed — true after every handshake;
-    see `reflection_needs_asymmetry` for the excluded point). -/
+    The one hypothesis about the session: the two fresh IVs differ in their last 12 bytes (`hsep`:
+    two independent `crypto/rand` draws). No hypothesis on the transcript digests is needed: a
+    reflected first frame announces the receiver's own base IV, which it refuses (fix D16). -/
 theorem recv_prefix (S S' R R' : Stream) (k : Nat) (ivS ivR : IV) (ops opsR : List SendOp)
-    (sent own w : List WireFrame) (hivS : ivS.w0 < 2^32)
-    (hsep : ivS.tail ≠ ivR.tail) (hasym : R.dig.fs ≠ R.dig.fr)
+    (sent own w : List WireFrame) (hivS : ivS.w0 < 2^32) (hivR : ivR.w0 < 2^32)
+    (hsep : ivS.tail ≠ ivR.tail)
     (hsend : (S.setKey k ivS).sendAll ops = .ok (S', sent))
     (hown : (R.setKey k ivR).sendAll opsR = .ok (R', own))
     (hadv : AdvWire k sent own w) (n : Nat) :
@@ -94,31 +87,25 @@ theorem recv_prefix (S S' R R' : Stream) (k : Nat) (ivS ivR : IV) (ops opsR : Li
     sendAll_spec opsR _ R' 0 own (setKey_sendInv R k ivR) hown
   have hr : RecvInv (R.setKey k ivR) k ivS 0 0 :=
     ⟨rfl, rfl, rfl, by simp [Stream.setKey], fun h => absurd rfl h⟩
-  have hdg : 0 + 0 = 0 → ((R.setKey k ivR).dig.fr, (R.setKey k ivR).dig.fs) = (R.dig.fr, R.dig.fs) := by
-    intro _
-    simp [Stream.setKey, Dig.finalize, Dig.fs, Dig.fr]
-  have := deliver_prefix (dg := (S.dig.fs, S.dig.fr)) (rdg := (R.dig.fr, R.dig.fs)) hivS hlim n
-    (R.setKey k ivR) w 0 (Nat.zero_le _) hr hdg
-    (advWire_advFrame (dgR := (R.dig.fs, R.dig.fr)) hsep hasym hsent hownE hadv)
+  have := deliver_prefix (dg := (S.dig.fs, S.dig.fr)) (ownIV := ivR) hivS hlim n
+    (R.setKey k ivR) w 0 (Nat.zero_le _) hr (fun _ => ⟨rfl, hivR⟩)
+    (advWire_advFrame (dgR := (R.dig.fs, R.dig.fr)) hsep hsent hownE hadv)
   simpa [hops] using this
 
 /-- **recv_prefix_midstream**: the same for an established session picked up at any counter values
     (after earlier traffic, or after a crypto-state hand-off, C15): the receiver delivers a prefix
     of what is sent from here on, whatever is replayed, forged or reflected. -/
 theorem recv_prefix_midstream (S S' R R' : Stream) (k : Nat) (iv ivR : IV) (dg dgR : Digest × Digest) (c0 cR : Nat)
-    (ops opsR : List SendOp) (sent own w : List WireFrame) (hiv : iv.w0 < 2^32)
-    (hsep : iv.tail ≠ ivR.tail) (hasym : dgR.1 ≠ dgR.2)
+    (ops opsR : List SendOp) (sent own w : List WireFrame) (hiv : iv.w0 < 2^32) (hivR : ivR.w0 < 2^32)
+    (hsep : iv.tail ≠ ivR.tail)
     (hS : SendInv S k iv dg c0) (hR : RecvInv R k iv c0 0) (hRs : SendInv R k ivR dgR cR)
     (hsend : S.sendAll ops = .ok (S', sent)) (hown : R.sendAll opsR = .ok (R', own))
     (hadv : AdvWire k sent own w) (n : Nat) :
     Stream.deliverFuel n R w <+: messagesOf [] ops := by
   obtain ⟨items, hsent, hops, hlim, _, _⟩ := sendAll_spec ops S S' c0 sent hS hsend
   obtain ⟨itemsR, hownE, _, _, _, _⟩ := sendAll_spec opsR R R' cR own hRs hown
-  have hdg : c0 + 0 = 0 → (R.dig.fr, R.dig.fs) = (dgR.2, dgR.1) := by
-    intro _
-    rw [Dig.fr_of_final hRs.fr, Dig.fs_of_final hRs.fs]
-  have := deliver_prefix (dg := dg) (rdg := (dgR.2, dgR.1)) hiv hlim n R w 0 (Nat.zero_le _) hR hdg
-    (advWire_advFrame hsep hasym hsent hownE hadv)
+  have := deliver_prefix (dg := dg) (ownIV := ivR) hiv hlim n R w 0 (Nat.zero_le _) hR (fun _ => ⟨hRs.iv, hivR⟩)
+    (advWire_advFrame hsep hsent hownE hadv)
   simpa [hops] using this
 
 /-- **no_bypass**: on a keyed, encrypting stream every frame `ReceiveFrameWithEnd` accepts went
@@ -172,16 +159,14 @@ example : Stream.deliver (({} : Stream).setKey 7 ⟨5, []⟩) (demoSent.eraseIdx
 example : Stream.deliver (({} : Stream).setKey 7 ⟨5, []⟩) (demoSent.eraseIdx 2) = [[1,2,3]] := by decide
 example : Stream.deliver (({} : Stream).setKey 7 ⟨5, []⟩) (demoSent ++ [⟨1, 0, .raw []⟩]) = [[1,2,3], [], [9,9]] := by decide
 
-/-- **reflection_needs_asymmetry** — the excluded point of `hasym`, exhibited: on a stream keyed
-    with NOTHING exchanged in clear beforehand both transcript digests are the zero digest, and an
-    endpoint's own first frame (with its IV prefix), reflected, is accepted as the peer's first
-    frame. This is a feature of the wire format (the AAD orders the two digests but carries no
-    direction bit), not of this implementation; after any handshake the digests differ
-    (`C04.transcript_binding`). Recorded as an observation in DESIGN.md §5. -/
-theorem reflection_needs_asymmetry :
+/-- **reflection_rejected** (the case that failed before fix D16, as a concrete test): on a stream
+    keyed with NOTHING exchanged in clear beforehand both transcript digests are the zero digest,
+    so the first-frame AAD is the same in both directions; an endpoint's own first frame, reflected
+    with its IV prefix, used to be accepted as the peer's first frame. It is refused now. -/
+theorem reflection_rejected :
     let A := ({} : Stream).setKey 7 ivA
     (match A.sendAll [([1, 2], 1)] with
      | .ok (_, fs) => Stream.deliver A fs
-     | .error _ => []) = [[1, 2]] := by decide
+     | .error _ => [[0]]) = [] := by decide
 
 end Cedar.C02
